@@ -1,4 +1,5 @@
 import Restli.Proofs.HttpUrl
+import Restli.Gen.Tables
 /-! # C15 — request URL construction preserves resolver base, resource path and query
 
 Property theorems only. Model: `Model/HttpUrl.lean` (`formatQueryUrl`, the re-parse in
@@ -55,36 +56,65 @@ theorem c15_url_preserved_partial (b : Base) (root rp : Bytes) (q : Option Bytes
     (hex : RootOnlyLast b.segs root)
     (g1 : NoDotSegments (expectedPath b.segs root rp)) (g2 : FirstRootIsLast b.segs root) :
     UrlPreserved b root rp q := by
-  obtain ⟨base, hparse, hsch, hhost, hesc, hauth⟩ := base_parse b hwf
   have hsegs : ∀ s ∈ b.segs, segText s = true := by
     simp only [Base.wf, Bool.and_eq_true, List.all_eq_true] at hwf; exact hwf.2
-  obtain ⟨hroot, hp, tail, hrpe, _⟩ := rp_shape root rp hrp
-  have hrootf := segText_facts root hroot
+  have hrootf := segText_facts root (rp_shape root rp hrp).1
   have hstrip := stripRoot_spec root hrootf.2.2 b.segs hsegs hex g2
   have hsegs' : ∀ s ∈ (if b.segs.getLast? = some root then b.segs.dropLast else b.segs), segText s = true := by
     intro s hs
     split at hs
     · exact hsegs s (List.dropLast_subset _ hs)
     · exact hsegs s hs
-  obtain ⟨u1, hu1, hpa1⟩ := formatQueryUrl_ok base b.segs b.trailingSlash root rp q hsegs hesc hrp hq _ hsegs'
-    hstrip g1
-  rw [hrpe] at hp
-  obtain ⟨r', he', hh', hp'⟩ := expected_shape _ hsegs' root tail hroot hp
-  rw [hsch, hhost] at hpa1
-  have hexp : expectedPath b.segs root rp = cSlash :: r' := by rw [← he', hrpe]; rfl
-  have hpa1' : ParsedAs u1 b.scheme b.host (cSlash :: r') q := by rw [← hexp]; exact hpa1
-  obtain ⟨u2, hu2, hpa2, _⟩ := httpRequestUrl_ok u1 _ _ r' q hpa1' hauth hp' hh' hq
-  have hreq : requestUrl base root rp q = .ok u2 := by simp only [requestUrl, hu1, hu2]
+  obtain ⟨base, u, r', hparse, hreq, hexp, hpa, hauth⟩ :=
+    requestUrl_pipeline b root rp q hwf hrp hq _ hsegs' hstrip g1
+  have hexp' : expectedPath b.segs root rp = cSlash :: r' := hexp
   simp only [UrlPreserved, hparse, hreq]
-  refine ⟨hpa2.scheme, hpa2.host, by rw [hpa2.esc, hexp], hpa2.rq, ?_, ?_⟩
-  · rw [toString_parsed u2 _ _ r' q hpa2 hauth, expectedText_eq b hwf, hexp]
-  · rw [requestURI_parsed u2 _ _ r' q hpa2, hexp]
+  refine ⟨hpa.scheme, hpa.host, by rw [hpa.esc, hexp'], hpa.rq, ?_, ?_⟩
+  · rw [toString_parsed u _ _ r' q hpa hauth, expectedText_eq b hwf, hexp']
+  · rw [requestURI_parsed u _ _ r' q hpa, hexp']
+
+/-- **Guard 2 is exactly as weak as it can be.** Inside the property's quantifier, whenever
+`FirstRootIsLast` fails (and the un-cut path has no dot segment, so guard 1 plays no part) the
+property fails: the context is not cut and the root segment is sent twice. -/
+theorem c15_guard2_necessary (b : Base) (root rp : Bytes) (q : Option Bytes)
+    (hwf : b.wf = true) (hrp : resourcePathOk root rp = true) (hq : queryText (q.getD []) = true)
+    (hex : RootOnlyLast b.segs root) (g1 : NoDotSegments (joinSegs b.segs ++ rp))
+    (hng : ¬ FirstRootIsLast b.segs root) :
+    ¬ UrlPreserved b root rp q := by
+  have hsegs : ∀ s ∈ b.segs, segText s = true := by
+    simp only [Base.wf, Bool.and_eq_true, List.all_eq_true] at hwf; exact hwf.2
+  have hrootf := segText_facts root (rp_shape root rp hrp).1
+  obtain ⟨hstrip, hlast⟩ := stripRoot_guard2_fails root hrootf.2.2 b.segs hsegs hex hng
+  obtain ⟨base, u, r', hparse, hreq, hexp, hpa, _⟩ :=
+    requestUrl_pipeline b root rp q hwf hrp hq b.segs hsegs hstrip g1
+  simp only [UrlPreserved, hparse, hreq]
+  intro hp
+  have h1 := hp.path_exact
+  rw [hpa.esc, ← hexp] at h1
+  simp only [expectedPath, hlast, if_true] at h1
+  have h2 := congrArg List.length h1
+  obtain ⟨l, hl⟩ : ∃ l, b.segs = l ++ [root] := by
+    have := List.getLast?_eq_some_iff.1 hlast
+    obtain ⟨l, hl⟩ := this
+    exact ⟨l, hl⟩
+  rw [hl] at h2
+  simp [joinSegs] at h2
+  omega
 
 /-- No input whatsoever makes `formatQueryUrl` panic: the byte access
 `resolvedPath[idx+len(root)+1]` is always in range (given the modelled `net/url` does not panic). -/
 theorem c15_no_panic (hostUrl : URL) (root rp : Bytes) (q : Option Bytes) :
     formatQueryUrl hostUrl root rp q ≠ .panic :=
   formatQueryUrl_no_panic hostUrl root rp q
+
+/-- Tie to the real encoders (tables regenerated from `path_writer.go` / `query_writer.go` of both
+modules): every byte `Ror2PathEscape` leaves unescaped is a `wireByte` of the resource-path grammar
+and none is `/`; every byte `Ror2QueryEscape` leaves unescaped is allowed by `queryText`. (Everything
+else is written as `%XX`, which both grammars accept.) -/
+theorem c15_encoder_alphabets_in_grammar :
+    (∀ c ∈ Gen.pathSafe ++ GenRoot.pathSafe, wireByte c = true ∧ c ≠ 47) ∧
+    (∀ c ∈ Gen.querySafe ++ GenRoot.querySafe, queryText [c] = true) := by
+  decide +kernel
 
 /-! ## Witnesses: the unguarded statement is false (each confirmed on the real client by `bin/check C15`) -/
 
